@@ -7,6 +7,7 @@ Import ListNotations.
 
 Section Contextual.
 
+Variable fold : ascii -> ascii.
 Variable m : term -> string -> nat -> option nat.
 Variable cok : list term -> bool.
 Variable text : string.
@@ -15,7 +16,15 @@ Notation unless_of := (Lexer.unless_of m).
 Notation embedded_of := (Lexer.embedded_of m).
 Notation embedded := (Lexer.embedded m).
 Notation scanner_terms := (Lexer.scanner_terms m).
-Notation report := (Lexer.report m).
+Notation report := (Lexer.report fold m).
+Notation str_full := (Lexer.str_full fold).
+Notation str_match_at := (Lexer.str_match_at fold).
+Notation tok_of := (Lexer.tok_of fold).
+Notation emit := (Lexer.emit fold).
+Notation lex_from := (Lexer.lex_from fold).
+Notation ctx_lex := (Lexer.ctx_lex fold).
+Notation str_oracle := (str_oracle fold).
+Notation removal_step := (removal_step fold).
 Notation fmatch p := (first_some (fun t => m t text p)).
 
 Ltac uniqH H := eapply (uniq_names_inj _ _ _ H); eauto; try congruence; try (symmetry; eauto; congruence).
@@ -259,7 +268,7 @@ Section Run.
 
 Variable pstate : Type.
 Variable accepts : pstate -> list string.
-Variable step : pstate -> string -> option pstate.
+Variable step : pstate -> tok -> option pstate.
 Variable terms : list term.
 Variable ign always : list string.
 
@@ -278,9 +287,9 @@ Hypothesis Hdisj : regexps_disjoint m text st.
 Hypothesis Hign : ignore_agrees m st ign.
 Hypothesis Hiso : forall s, keywords_isolated m text st (Lsub s).
 (* the parser only consumes a token type that its current state accepts *)
-Hypothesis Hacc : forall s a s', step s a = Some s' -> In a (accepts s).
+Hypothesis Hacc : forall s t s', step s t = Some s' -> In (ktype t) (accepts s).
 
-Fixpoint run (s : pstate) (l : list string) : option pstate :=
+Fixpoint run (s : pstate) (l : list tok) : option pstate :=
   match l with
   | [] => Some s
   | a :: r => match step s a with Some s' => run s' r | None => None end
@@ -351,7 +360,7 @@ Qed.
 (* the reported type names a terminal of the grammar *)
 Lemma report_names_term X v : In X st -> exists T, In T st /\ tname T = report st X v.
 Proof.
-  intros HX. destruct (report_inv m st X v) as [E|(_ & K & E & (HK & _) & _)].
+  intros HX. destruct (report_inv fold m st X v) as [E|(_ & K & E & (HK & _) & _)].
   - exists X. auto.
   - exists K. auto.
 Qed.
@@ -406,11 +415,11 @@ Proof.
     + destruct (step_here p X n Hm) as (X' & EL & Hi' & _); [rewrite Hig; discriminate|].
       rewrite EL. unfold ignored. cbn [rterm]. rewrite HLi, Hi', Hig.
       apply IH. lia.
-    + intros Hin. unfold tok_of in Hin. cbn [ktype rterm rstart rlen] in Hin.
+    + intros Hin. unfold Lexer.tok_of in Hin. cbn [ktype rterm rstart rlen] in Hin.
       destruct (step_here p X n Hm) as (X' & EL & Hi' & Hrep); [intros _; exact Hin|].
       rewrite EL. unfold ignored. cbn [rterm]. rewrite HLi, Hi', Hig.
       exists X'. cbn [rstart rlen]. split; [reflexivity|].
-      unfold tok_of. cbn [rterm rstart rlen]. now rewrite Hrep.
+      unfold Lexer.tok_of. cbn [rterm rstart rlen]. now rewrite Hrep.
 Qed.
 
 End State.
@@ -423,7 +432,7 @@ Proof. unfold sub_lexer. apply make_lexer_total. Qed.
 (* the contextual lexer reproduces the basic tokens as long as the parser accepts them *)
 Lemma ctx_follow root ts : forall p rs s sf fuel,
   raw_run p rs -> map (tok_of m text st) (filter live rs) = ts ->
-  run s (map ktype ts) = Some sf -> (List.length ts < fuel)%nat ->
+  run s ts = Some sf -> (List.length ts < fuel)%nat ->
   ctx_lex m cok text pstate accepts step fuel terms ign always root s p = (ts, CEOF).
 Proof.
   induction ts as [|t ts IH]; intros p rs s sf fuel Hr Hts Hrun Hf;
@@ -434,7 +443,7 @@ Proof.
     rewrite Hnt by lia. reflexivity.
   - destruct (filter live rs) as [|r frs] eqn:Ef; [discriminate|].
     cbn [map] in Hts. injection Hts as Ht Hts'.
-    cbn [map run] in Hrun. destruct (step s (ktype t)) as [s'|] eqn:Est; [|discriminate].
+    cbn [map run] in Hrun. destruct (step s t) as [s'|] eqn:Est; [|discriminate].
     destruct Hnt as (X' & Ent & Etok); [lia|rewrite Ht; eapply Hacc; eauto|].
     rewrite Ent, HLt, Etok, Ht, Est. cbn [rstart rlen].
     destruct (raw_run_after p rs Hr r frs Ef) as (rs' & Hr' & Ef').
@@ -447,14 +456,14 @@ Qed.
 Theorem contextual_refines_basic root ts sf s0 :
   make_lexer m cok terms ign = Some root ->
   lex_from m text root 0 = (ts, AtEOF) ->
-  run s0 (map ktype ts) = Some sf ->
+  run s0 ts = Some sf ->
   forall fuel, (List.length ts < fuel)%nat ->
   ctx_lex m cok text pstate accepts step fuel terms ign always root s0 0 = (ts, CEOF).
 Proof.
   intros Hroot Hlex Hrun fuel Hf.
   destruct (make_lexer_total terms ign) as (root' & E & HRt & HRi & HRm).
   rewrite Hroot in E. injection E as <-.
-  unfold lex_from in Hlex.
+  unfold Lexer.lex_from in Hlex.
   destruct (Lexer.lex_raw m text (S (String.length text - 0)) (lx_mres root) 0) as [rs e] eqn:Er.
   injection Hlex as Hts ->.
   eapply ctx_follow; eauto.
